@@ -366,7 +366,7 @@ func vflRun(c *vflCase, w *bufio.Writer, seen map[string]bool) {
 	}()
 	r.emit(`{"ev":"caller","read":%d,"eof":%v,"err":%q,"experr":%v}`, read, eof, errs, c.ExpErr)
 	// settle: explicit producer signals, bounded
-	deadline := time.Now().Add(1 * time.Second)
+	deadline := time.Now().Add(3 * time.Second) // generous: a loaded machine must not turn a slow producer into a "blocked" one
 	timeout := false
 	for atomic.LoadInt32(&r.ended) < atomic.LoadInt32(&r.started) {
 		if time.Now().After(deadline) {
